@@ -641,7 +641,7 @@ func conclude(sp *propSpec, outcomes []*childOutcome, tier string, seed uint64, 
 		"classes_missing":     missing,
 		"runs":                perMode,
 		"notes":               notes,
-		"inconclusive_items":  inconcl,
+		"inconclusive_items":  append([]string{}, inconcl...),
 		"known_findings":      knownOut,
 		"new_violations":      violOut,
 	}
